@@ -1,7 +1,7 @@
 """C02 - basis functions obey Cox-de Boor for every index and sub-degree."""
 import random
 
-from common import (F, cnat, copt, cq, cql, cres, clist, ctuple, cz, fs, fsl, node_set, npts_of,
+from common import (F, cnat, copt, cq, cql, cres, clist, ctuple, cz, fs, fsl, near_knot_nodes, node_set, npts_of,
                     rand_weights, random_vector, shape_vectors)
 
 COQ_MODULE = "NurbsV.Check.C02"
@@ -44,7 +44,8 @@ def gen(tier, seed):
         n = npts_of(U, p)
         nodes = node_set(U, p)
         if tier == "quick":
-            nodes = nodes[:-4][::2] + nodes[-5:]          # every other inside node, umax, four outside
+            near = near_knot_nodes(U)
+            nodes = nodes[:-5 - len(near)][::2] + near + nodes[-5:]    # every other inside node, near-knot ones, umax, four outside
         for rational in (False, True):
             if tier == "quick" and rational and v["kind"] == "uniform":
                 continue
